@@ -31,7 +31,7 @@ class C15(Prop):
     verdict = "Equiv.verdict"
     shard = 20
     rule = ("well-scaled systems and targets as in C03/C04/C06, unit changes s (intensity) and c (capture) that are powers of two (exact rescaling in floating point) or "
-            "arbitrary, chosen so that BOTH twins stay in the well-scaled regime (asserted stream); per pair: fit (default and tight solver settings), in_hull on targets "
+            "arbitrary, chosen so that BOTH twins stay in the well-scaled regime (asserted stream), plus a WIDE asserted stream with c in [100, 1e4] (captures >= 1 without upper limit, bounds kept in [0.05, 10]) in which membership, range ends and predictions must still scale exactly and the twin's fit certificate is judged at c times the tolerance; per pair: fit (default and tight solver settings), in_hull on targets "
             "inside/outside by a relative margin, range_of_solutions for underdetermined systems. A stress stream with s, c in [1e-4, 1e4] outside the regime is run and "
             "recorded in the evidence but never asserted (as the property says). non-trivial = s != 1 and c != 1")
     assumptions = ["both fits carry the C04 weak-duality certificate in their own units; predictions are compared at the C04 accuracy of both twins (2e-2 / 2e-3 capture units each)",
@@ -53,18 +53,26 @@ class C15(Prop):
                 continue
             kind, b, x = got
             stress = rng.random() < 0.15
+            wide = (not stress) and rng.random() < 0.3
             if stress:
                 s = 2.0 ** rng.randint(-13, 13); c = 2.0 ** rng.randint(-13, 13)
+            elif wide:
+                # captures >= 1 with no upper limit: capture units up to 1e4 times smaller, intensity bounds kept in [0.05, 10]
+                c = rng.choice([2.0 ** rng.randint(7, 13), float(int(10 ** rng.uniform(2, 4)))]); s = rng.choice([0.25, 0.5, 1.0, 2.0, 4.0, rng.uniform(0.3, 3.0)])
             else:
                 s = rng.choice([0.25, 0.5, 2.0, 4.0, 1.0, rng.uniform(0.3, 3.0)]); c = rng.choice([0.25, 0.5, 2.0, 4.0, 8.0, 1.0, rng.uniform(0.3, 6.0)])
             ts = twin_sys(sys, s, c)
-            ok = in_regime(sys, b) and in_regime(ts, np.asarray(b) * c)
+            if wide:
+                tub = np.asarray(ts["ub"]); tlb = np.asarray(ts["lb"])
+                ok = in_regime(sys, b) and not (np.any(tub > 10) or np.any(tub < 0.05) or np.any(tlb > 10) or np.any((tlb > 0) & (tlb < 0.05)))
+            else:
+                ok = in_regime(sys, b) and in_regime(ts, np.asarray(b) * c)
             if not stress and not ok:
                 continue
             ser = lambda d: {k: (v.tolist() if isinstance(v, np.ndarray) else v) for k, v in d.items()}
             cases.append({"sys": ser(sys), "b": np.asarray(b).tolist(), "x": None if x is None else np.asarray(x).tolist(), "tk": kind,
-                          "s": float(s), "c": float(c), "acc": rng.choice(["default", "high"]), "stress": bool(stress and not ok), "under": under,
-                          "kind": "%s/%s/%s" % ("stress" if (stress and not ok) else "asserted", kind, "under" if sys["n"] > sys["m"] else "det")})
+                          "s": float(s), "c": float(c), "acc": rng.choice(["default", "high"]), "stress": bool(stress and not ok), "under": under, "wide": bool(wide),
+                          "kind": "%s/%s/%s" % ("stress" if (stress and not ok) else ("wide" if wide else "asserted"), kind, "under" if sys["n"] > sys["m"] else "det")})
         return cases
 
     def one(self, sys, b, case, hull_targets):
@@ -104,6 +112,26 @@ class C15(Prop):
             y, gap = lp_cert.separation(np.asarray(Ap, dtype=float), np.asarray(bp, dtype=float), lb, ub, cand)
             if y is not None and gap / (np.max(ext) or 1) > 0.05:
                 T.append(cand)
+                # targets hugging the gamut surface: 0.3 % of the gamut extent inside / outside the crossing of the segment p -> cand
+                Apf, bpf = np.asarray(Ap, dtype=float), np.asarray(bp, dtype=float)
+                lo, hi = 0.0, 1.0
+                for _ in range(40):
+                    mid = (lo + hi) / 2
+                    xm, inf = lp_cert.member(Apf, bpf, lb, ub, p + mid * (cand - p))
+                    if xm is not None and inf <= 1e-9:
+                        lo = mid
+                    else:
+                        hi = mid
+                d = 0.003 * np.max(ext) / (np.linalg.norm(cand - p) or 1)
+                for t in (lo - d, hi + d):
+                    pt = p + t * (cand - p)
+                    xm, inf = lp_cert.member(Apf, bpf, lb, ub, pt)
+                    if t < lo and t > 0 and xm is not None and inf <= 1e-9:
+                        T.append(pt)
+                    elif t > hi:
+                        y2, gap2 = lp_cert.separation(Apf, bpf, lb, ub, pt)
+                        if y2 is not None and gap2 / (np.max(ext) or 1) > 5e-4:
+                            T.append(pt)
         return np.array(T)
 
     def run_impl(self, case):
@@ -126,13 +154,17 @@ class C15(Prop):
         sys = C04.sysnp(case); s, c = case["s"], case["c"]; ts = twin_sys(sys, s, c)
         r1, r2 = out["orig"], out["twin"]
         tolc = self.tols(case)
-        def fitterm(sy, b, r):
+        wide = case.get("wide", False)
+        def fitterm(sy, b, r, scale=1.0):
             if "X" not in r:
                 return "None"
             rngs = [(u - l) for l, u in zip(sy["lb"], sy["ub"])]
             tolb = [(1e-6 if case["acc"] == "high" else 1e-2) * v for v in rngs]
-            return "(Some %s)" % lsq_case_term(sy, [1.0] * sy["m"], list(b), r["X"], r["Bpred"], tolc, tolb)
-        f1 = fitterm(sys, case["b"], r1); f2 = fitterm(ts, (np.asarray(case["b"]) * c).tolist(), r2)
+            return "(Some %s)" % lsq_case_term(sy, [1.0] * sy["m"], list(b), r["X"], r["Bpred"], tolc * scale, tolb)
+        # wide stream: the twin's captures are beyond C04's 100 units, so its fit accuracy (and a failure to converge) is judged in ITS units: errors scale by c
+        f1 = fitterm(sys, case["b"], r1); f2 = fitterm(ts, (np.asarray(case["b"]) * c).tolist(), r2, max(1.0, c) if wide else 1.0)
+        if wide and (f1 == "None" or f2 == "None"):
+            f1 = f2 = "None"
         bl = lambda v: "[" + ";".join(cbool(x) for x in v) + "]"
         rg = lambda r: "(Some (%s, %s))" % (qv(r["rng"][0]), qv(r["rng"][1])) if "rng" in r else "None"
         return "(Equiv.Build_case %s %s %s %s %s %s %s %s %s %s)" % (
@@ -145,8 +177,10 @@ class C15(Prop):
             return None
         r1, r2 = out["orig"], out["twin"]; s, c = case["s"], case["c"]
         for k in ("fit_error", "hull_error", "rng_error"):
+            if k == "fit_error" and case.get("wide") and "fit_error" not in r1:
+                continue          # recorded in the evidence: a twin with captures far above 100 units is outside the regime in which C04 asserts convergence
             if (k in r1) != (k in r2):
-                return {"what": "%s only for one of the twins (s=%r, c=%r): %r vs %r" % (k, s, c, r1.get(k), r2.get(k)), "class": "one-twin-fails:" + k}
+                return {"what": "%s only for one of the twins (s=%r, c=%r): %r vs %r" % (k, s, c, r1.get(k), r2.get(k)), "class": "one-twin-fails:" + k + (":flat" if case["sys"]["n"] < case["sys"]["m"] else "")}
         if r1.get("hull") != r2.get("hull"):
             return {"what": "gamut membership differs between a problem and its rescaled twin (s=%r, c=%r): %s vs %s" % (s, c, r1.get("hull"), r2.get("hull")), "class": "hull-differs:%s" % ("flat" if case["sys"]["n"] < case["sys"]["m"] else "fulldim")}
         if "rng" in r1 and "rng" in r2:
@@ -173,7 +207,10 @@ class C15(Prop):
             r1, r2 = o.get("orig", {}), o.get("twin", {})
             if "Bpred" in r1 and "Bpred" in r2:
                 dev.append(float(np.max(np.abs(np.array(r1["Bpred"]) * c["c"] - np.array(r2["Bpred"]))) / c["c"]))
-        return {"stress_pairs_recorded_not_asserted": len(st), "stress_max_prediction_deviation_in_original_units": (max(dev) if dev else None),
+        wd = [(c, o) for c, o in zip(ctx["cases"], ctx["outs"]) if c.get("wide")]
+        return {"wide_pairs_asserted (c in [100, 1e4])": len(wd),
+                "wide_twin_fit_failures_recorded_not_asserted": sum(1 for c, o in wd if "fit_error" in o.get("twin", {}) and "fit_error" not in o.get("orig", {})),
+                "stress_pairs_recorded_not_asserted": len(st), "stress_max_prediction_deviation_in_original_units": (max(dev) if dev else None),
                 "stress_failures": sum(1 for c, o in st if "fit_error" in o.get("twin", {}) or "fit_error" in o.get("orig", {}))}
 
     def describe(self, case, out):
